@@ -27,10 +27,14 @@ MANIFEST = {
                   "visual sample entry (C03_vse_pair_agree_canonical): on every canonical payload (entry count = entries / 78 fixed bytes "
                   "with name length <= 31; canonical children over ANY leaf pair satisfying the leaf contract) both decoders accept with "
                   "the same value. The compact-header guard of the trun theorem is exact (C03_trun_large_header_differs, witness "
-                  "replayed on the Go code; not a canonical string, so not a property violation). The key sets of decoders and decodersSR "
+                  "replayed on the Go code; not a canonical string, so not a property violation); a compact header announcing more body bytes "
+                  "than present is rejected by both paths except mdat on the SR path (empty box, AccError set; C03_leaf_boxes_truncated). "
+                  "ENCODER pairs written twice: MdatBox, StsdBox, VisualSampleEntryBox Encode = EncodeSW given agreeing children "
+                  "(C03_mdat_enc_agree, C03_stsd_enc_agree, C03_vse_enc_agree: the hypothesis `agree` is discharged for them; TrunBox and "
+                  "SencBox Encode call their own EncodeSW). The key sets of decoders and decodersSR "
                   "are equal (C03_registry, regenerated from the hook on every run). "
                   "EXPLORED only: the remaining ~125 leaf decoder pairs (most reader-path decoders read the body and delegate to the SR "
-                  "decoder) and all leaf ENCODER pairs, i.e. the hypothesis `leaves agree` of the encode theorems: both paths are run on "
+                  "decoder) and the remaining leaf ENCODER pairs, i.e. the hypothesis `leaves agree` of the encode theorems: both paths are run on "
                   "every testdata file, every harvested box, generated trun/senc/mdat/stsd/sample-entry boxes, every box kind and every "
                   "file with 16-byte-header boxes before/between/after fragments, and their structured mutants; whenever one path accepts "
                   "and reproduces the input exactly the other must accept with an equal Info dump, field-by-field equal structure "
@@ -41,7 +45,8 @@ MANIFEST = {
                   "decoded File structures with per-box encodings against File.Encode/EncodeSW bytes; box trees and byte-level files with "
                   "16-byte headers through both decoders (B, L); decoded fields, Size, bytes consumed and AccError of both decoders of "
                   "trun/senc/mdat (T) and stsd/visual sample entry (V) on valid and malformed boxes (every trun flag combination, lying "
-                  "sizes, truncations, inflated counts, trailing bytes, 16-byte headers). stsd and the sample entry are modelled at "
+                  "sizes, truncations, inflated counts, trailing bytes, 16-byte headers); model encoders of mdat/stsd/sample entry against the Go "
+                  "bytes from decoded fields and the children's own encodings (M). stsd and the sample entry are modelled at "
                   "startPos 0 (only position differences are used; no uint64 wrap below 2^63). The leaf-pair theorems are about the "
                   "models; children of sample entries in the correspondence are the standard leaves (free/skip/mdat/unknown/udta/trun/senc).",
 }
@@ -134,7 +139,8 @@ def run(ctx):
                               "flag combination x 0..2 samples x {as is, sibling/junk after, 16-byte header, lying size fields, truncations, inflated "
                               "counts}, senc over version/flags/count/raw length, mdat, + %d random truns/sencs each with a mutated copy: fields, Size, "
                               "consumed, AccError of both decoders vs the two model decoders; V: the same for stsd and 8 sample-entry types (name "
-                              "lengths 0/4/31/32/255, 0..2 children incl. lying children, boxes shorter than the 78 fixed bytes)" % (exh, n, n, n, n),
+                              "lengths 0/4/31/32/255, 0..2 children incl. lying children, boxes shorter than the 78 fixed bytes); M: every V input that decodes "
+                              "to an stsd / sample entry and 8 mdat boxes: model encoders vs Encode/EncodeSW bytes" % (exh, n, n, n, n),
     }
     ctx.cov["samples"] += [l[:300] for l in lines[:2]] + [l[:300] for l in lines[len(lines) // 2:len(lines) // 2 + 2]]
     ctx.log("correspondence: %d cases, %d mismatches" % (len(lines), len(mism)))
